@@ -183,8 +183,9 @@ def h_reciprocal_lengths(ex):
     from pyrex.ice_model import AntarcticIce
     ice = AntarcticIce()
     direct = ex.case['direct']
-    za = ex.real('za', -700, -10)
-    zb = ex.real('zb', -700, -10)
+    ra, rb = ex.case.get('ranges', ((-700, -10), (-700, -10)))
+    za = ex.real('za', ra[0], ra[1])
+    zb = ex.real('zb', rb[0], rb[1])
     beta = ex.case.get('beta', 1.2)
     zt = float(ice.depth_with_index(beta)) if beta > ice.index(0.0) - 0.43 else -1.0
     if not direct:
@@ -357,8 +358,11 @@ HARNESSES = [
                    'thorough': [{'direct': False, '_twins': 1}, {'direct': True}]},
             budget={'quick': {'max_paths': 2000}}),
     Harness('reciprocal-lengths', h_reciprocal_lengths, _mods, encodes=_enc, twins=('longer',),
-            cases={'quick': [{'direct': True}, {'direct': False, 'beta': 1.5}],
+            cases={'quick': [{'direct': True}, {'direct': False, 'beta': 1.5},
+                             {'direct': True, 'ranges': ((-1500, -800), (-700, -10))}],
                    'thorough': [{'direct': True}, {'direct': False, 'beta': 1.5},
+                                {'direct': True, 'ranges': ((-1500, -800), (-700, -10))},
+                                {'direct': True, 'ranges': ((-2500, -800), (-2000, -900))},
                                 {'direct': True, 'beta': 0.7}, {'direct': False, 'beta': 1.6}]},
             budget={'quick': {'query_timeout_ms': 60000, 'wall_s': 300}}),
     Harness('snell', h_snell, _mods, encodes=_enc, twins=('n0',),
